@@ -157,6 +157,15 @@ def _interpret(ctx_or_none, env, shape, concrete=None):
         x = Identity()
     else:
         x = make_op(shape["x_node"], env)
+    # earlier life of the same objects: other operations were asked to commute with this very relation (and its expression objects)
+    # before - backtracking asks one candidate after the other; none of those questions may change the answer to this one
+    from lsst.daf.relation import Deduplication, Projection, Slice
+    cols = sorted(cur.columns, key=lambda t: t.qualified_name)
+    for other in [Projection(frozenset(cols[:1])), Projection(frozenset(cols[1:])), Projection(frozenset(cols[::2])), Deduplication(), Slice(0, 1)]:
+        try:
+            other.commute(cur)
+        except Exception:  # noqa: BLE001 - the earlier questions are not the subject
+            pass
     com = x.commute(cur)
     return cur, x, com
 
